@@ -778,7 +778,7 @@ pub fn gen_case(prop: &str, seed: u64) -> (SCase, Sched) {
         }
         return (SCase { kind: Kind::Reg, fns, threads: vec![ops], shards, salt, fastrand_seed, probe: false, sequential: false }, sched);
     }
-    let l1 = matches!(prop, "C18" | "C17") && r.chance(1, 3);
+    let l1 = matches!(prop, "C18" | "C17" | "C16") && r.chance(1, 3);
     let nthreads = r.range(2, 3) as usize;
     if l1 {
         let p = Params {
@@ -838,7 +838,10 @@ pub fn gen_case(prop: &str, seed: u64) -> (SCase, Sched) {
         }
     }
     while (fns.len() as u64) < nf {
-        let s = if matches!(prop, "C17" | "C18") && r.chance(1, 2) {
+        let s = if prop == "C15" && r.chance(1, 2) {
+            let b: Vec<&&FnSpec> = pool.iter().filter(|s| s.ttl.is_some() || s.limit.map_or(false, |n| n <= 2)).collect();
+            **r.pick(&b)
+        } else if matches!(prop, "C17" | "C18" | "C16") && r.chance(1, 2) {
             // bias towards caches whose stores evict / expire and towards invalidation groups
             let b: Vec<&&FnSpec> = if r.chance(1, 4) {
                 // bodies that call other decorated functions or themselves
@@ -862,7 +865,10 @@ pub fn gen_case(prop: &str, seed: u64) -> (SCase, Sched) {
             let f = *r.pick(&fns);
             let s = spec(f);
             let nk = (s.nkeys as u64).min(s.limit.unwrap_or(2) as u64 + 2).max(1);
-            if only_calls || r.chance(3, 5) {
+            if prop == "C15" && s.ttl.is_some() && r.chance(1, 5) {
+                // time passes between the calls: expired lookups race with stores
+                ops.push(SOp::Adv(*r.pick(&[SEC, 2 * SEC, 3 * SEC])));
+            } else if only_calls || r.chance(3, 5) {
                 ops.push(SOp::Call { f, k: r.below(nk) as Key });
             } else if prop == "C12" {
                 let name = NAMES[r.below(9) as usize].to_string();
